@@ -62,6 +62,15 @@ def topologies(tier):
     return tops
 
 
+_BUSES = {}  # id(core) -> Bus: several buses may be alive at once (twin exploration); each core's steps go to its own reference model
+
+
+def _dispatch_observer(c):
+    b = _BUSES.get(id(c))
+    if b is not None:
+        b._after_step(c)
+
+
 class Bus:
     """one fresh real bus + the reference model, driven event by event"""
 
@@ -69,8 +78,9 @@ class Bus:
         self.top = top
         self.fails = []
         sched.ControlledCore.chooser = chooser
-        sched.ControlledCore.observer = self._after_step
+        sched.ControlledCore.observer = _dispatch_observer
         self.core = c = sched.ControlledCore()
+        _BUSES[id(c)] = self
         self.pub = {"a": uros.Publisher(c, "a", msgs.Imu), "b": uros.Publisher(c, "b", msgs.Mag), "c": uros.Publisher(c, "c", msgs.Imu)}
         self.ref_pubs = {"a": [], "b": [], "c": []}  # reference model: order of publish calls per topic
         self.latest = {"a": None, "b": None, "c": None}
@@ -288,6 +298,7 @@ def explore_longlog(case):
     finally:
         sched.ControlledCore.chooser = None
         sched.ControlledCore.observer = None
+        _BUSES.clear()
     n = len(b.logger.data_list)
     res.count("evaluations", n)
     res.count("states", n)
@@ -324,7 +335,72 @@ def run_word(top, word, chooser=None):
     finally:
         sched.ControlledCore.chooser = None
         sched.ControlledCore.observer = None
+        _BUSES.clear()
     return b
+
+
+TWIN_EVENTS = ["pub_a", "pub_b", "wrong_a", "set_p", "run1"]
+
+
+def explore_twin(case):
+    """two buses alive in one process, their event words interleaved: each must behave exactly as it does alone (registries, parameters,
+    loggers and queues belong to a core, not to the class or the module).  All pairs of words to the depth over the reduced event set,
+    alternating A, B, A, B ...; every event judged by the bus's own reference model."""
+    tier, ta, tb, first = case["tier"], case["top_a"], case["top_b"], case["first"]
+    depth = 3 if tier == "thorough" else 2
+    res = core.Result()
+    tops = twin_topologies()
+    words = [w for d in range(1, depth + 1) for w in itertools.product(TWIN_EVENTS, repeat=d)]
+    for wa in words:
+        if wa[0] != TWIN_EVENTS[first]:
+            continue
+        for wb in words:
+            res.count("evaluations")
+            res.count("transitions", len(wa) + len(wb))
+            res.count("states", len(wa) + len(wb))
+            res.count("traces_validated_against_impl", len(wa) + len(wb))
+            res.nontrivial.add(hash((ta, tb, wa, wb)))
+            A = B = None
+            try:
+                A = Bus(tops[ta], None)
+                B = Bus(tops[tb], None)
+                for b_, w_ in ((A, wa), (B, wb)):
+                    if b_.logger is not None and any(e.startswith("run") for e in w_):
+                        b_.event("set_logdt")
+                for k in range(max(len(wa), len(wb))):
+                    if k < len(wa):
+                        A.event(wa[k])
+                    if k < len(wb):
+                        B.event(wb[k])
+            except Exception as ex:
+                (A or B).fails.append(("no_exception", dict(error="%s: %s" % (type(ex).__name__, str(ex)[:200])))) if (A or B) else None
+            finally:
+                sched.ControlledCore.chooser = None
+                sched.ControlledCore.observer = None
+                _BUSES.clear()
+            for nm, b_ in (("first_bus", A), ("second_bus", B)):
+                if b_ is None:
+                    continue
+                res.outcomes.add(hash((nm, tuple(map(tuple, b_.inbox)))))
+                for clause, detail in b_.fails[:2]:
+                    res.fail(site="uros", clause=clause, cls="two_buses;" + nm, detail=dict(detail, topologies=[tops[ta], tops[tb]], word_a=list(wa), word_b=list(wb)), sub="twin", case=case)
+    return res
+
+
+def twin_topologies():
+    return [dict(subs=[0, 1, 2], logger=True, nodes=[True, False], periods=(1, 2)), dict(subs=[3, 0], logger=True, nodes=[True], periods=None),
+            dict(subs=[1], logger=False, nodes=[False, True], periods=(1, 1))]
+
+
+class _Twin:
+    chunks = 1
+
+    def cases(self, tier, seed):
+        n = len(twin_topologies())
+        return [dict(sub="twin", tier=tier, top_a=a, top_b=b, first=f) for a in range(n) for b in range(n) for f in range(len(TWIN_EVENTS))]
+
+    def run(self, case):
+        return explore_twin(case)
 
 
 def explore_bus(case):
@@ -603,6 +679,6 @@ class _Est:
         return explore_est(case)
 
 
-SUBCHECKS = {"bus": _Bus(), "est": _Est(), "estparams": _EstP(), "longlog": _LongLog()}
+SUBCHECKS = {"bus": _Bus(), "est": _Est(), "estparams": _EstP(), "longlog": _LongLog(), "twin": _Twin()}
 REPLAY = {"bus": lambda c: explore_bus(c).fails, "est": lambda c: explore_est(c).fails, "estparams": lambda c: explore_estparams(c).fails,
-          "longlog": lambda c: explore_longlog(c).fails}
+          "longlog": lambda c: explore_longlog(c).fails, "twin": lambda c: explore_twin(c).fails}
